@@ -165,6 +165,25 @@ def check_obligations(prop, expected):
         rc, out = run(['lake', 'env', 'leanchecker', 'BB'], cwd=LEAN_DIR, timeout=3600)
         if rc != 0:
             failed.append(('leanchecker', out[-2000:]))
+    if os.environ.get('VERIF_TIER_RUNNING') == 'thorough' and expected:
+        from harness import obligations as _ob
+        slow = _ob.SLOW_THEOREMS.get(prop, [])
+        if slow:
+            rc, out = run(['lake', 'build', 'BBSlow'], cwd=LEAN_DIR, timeout=5400)
+            if rc != 0:
+                failed.append(('lake build BBSlow', out[-3000:]))
+            else:
+                rc, out = run(['lake', 'env', 'lean', 'AuditSlow.lean'], cwd=LEAN_DIR, timeout=1800)
+                if rc != 0:
+                    failed.append(('AuditSlow.lean', out[-3000:]))
+                else:
+                    text = out.replace('\n ', ' ')
+                    ax = dict(ax)
+                    for m in re.finditer(r"'(\S+)' depends on axioms: \[([^\]]*)\]", text):
+                        ax[m.group(1)] = set(a.strip() for a in m.group(2).split(',') if a.strip())
+                    for m in re.finditer(r"'(\S+)' does not depend on any axioms", text):
+                        ax[m.group(1)] = set()
+                    expected = list(expected) + slow
     discharged = 0
     used = {}
     for name in expected:
